@@ -41,6 +41,14 @@ PROPS = {
              "thorough": {"checks": 1, "shards": 16, "timeout": 2400}},
         ],
     },
+    "C15": {
+        "level": "exploration",
+        "jobs": [
+            {"test": "TestC15", "variant": "std",
+             "quick": {"checks": 20, "shards": 12, "timeout": 400},
+             "thorough": {"checks": 300, "shards": 16, "timeout": 2400}},
+        ],
+    },
     "C16": {
         "level": "exploration",
         "jobs": [
